@@ -437,6 +437,7 @@ func (bp *boundsProver) sliceElemInterval(v ssa.Value, depth int) ([2]int64, boo
 // factsAt collects the difference constraints that hold whenever control is at `at`.
 func (bp *boundsProver) factsAt(at ssa.Instruction, viaPred *ssa.BasicBlock) []bfact {
 	var fs []bfact
+	neq := map[string][]int64{}
 	addCmp := func(op token.Token, X, Y ssa.Value, taken bool) {
 		if !isIntLike(X.Type()) {
 			return
@@ -474,6 +475,13 @@ func (bp *boundsProver) factsAt(at ssa.Instruction, viaPred *ssa.BasicBlock) []b
 		case token.EQL:
 			le(a, b, 0)
 			le(b, a, 0)
+		case token.NEQ:
+			// len(x) != c: remembered; with len(x) >= 0 a run 0,1,..,k of excluded values gives len(x) >= k+1
+			if b.term == "" && strings.HasPrefix(a.term, "len(") && a.off == 0 {
+				neq[a.term] = append(neq[a.term], b.off)
+			} else if a.term == "" && strings.HasPrefix(b.term, "len(") && b.off == 0 {
+				neq[b.term] = append(neq[b.term], a.off)
+			}
 		}
 	}
 	useBlockEdge := func(d *ssa.BasicBlock, succ *ssa.BasicBlock) {
@@ -503,6 +511,18 @@ func (bp *boundsProver) factsAt(at ssa.Instruction, viaPred *ssa.BasicBlock) []b
 			if (s == d || s.Dominates(d)) && len(s.Preds) == 1 {
 				useBlockEdge(id, s)
 			}
+		}
+	}
+	for term, cs := range neq {
+		sort.Slice(cs, func(i, j int) bool { return cs[i] < cs[j] })
+		var lb int64
+		for _, c := range cs {
+			if c == lb {
+				lb++
+			}
+		}
+		if lb > 0 {
+			fs = append(fs, bfact{"", term, -lb}) // lb <= len(x)
 		}
 	}
 	return fs
@@ -543,6 +563,15 @@ func (bp *boundsProver) axiomsFor(vals []ssa.Value) []bfact {
 		case *ssa.Convert:
 			add(x.X, depth-1)
 		case *ssa.Call:
+			// copy(dst, src) returns min(len(dst), len(src)): between 0 and either length
+			if bi, ok := x.Common().Value.(*ssa.Builtin); ok && bi.Name() == "copy" && len(x.Common().Args) == 2 {
+				l := bp.linear(v, 6)
+				fs = append(fs, bfact{"", l.term, l.off}) // 0 <= copy()
+				for _, a := range x.Common().Args {
+					fs = append(fs, bfact{l.term, "len(" + memName(a) + ")", -l.off})
+					fs = append(fs, bp.lenFacts(a, 3)...)
+				}
+			}
 			// relational library contract: strings/bytes Index*(s, ...) < len(s)
 			if f := x.Common().StaticCallee(); f != nil && f.Pkg != nil && (f.Pkg.Pkg.Path() == "strings" || f.Pkg.Pkg.Path() == "bytes") &&
 				(strings.HasPrefix(f.Name(), "Index") || strings.HasPrefix(f.Name(), "LastIndex")) && len(x.Common().Args) >= 1 {
@@ -574,6 +603,21 @@ func (bp *boundsProver) lenFacts(x ssa.Value, depth int) []bfact {
 	case *ssa.MakeSlice:
 		l := bp.linear(y.Len, 6)
 		fs = append(fs, bfact{name, l.term, l.off}, bfact{l.term, name, -l.off})
+		// make([]T, len(a)+len(b)): each summand is a lower bound of the length (the other is >= 0)
+		if sum, ok := y.Len.(*ssa.BinOp); ok && sum.Op == token.ADD {
+			for _, part := range []ssa.Value{sum.X, sum.Y} {
+				other := sum.Y
+				if part == sum.Y {
+					other = sum.X
+				}
+				if c, ok := other.(*ssa.Call); ok {
+					if bi, ok := c.Common().Value.(*ssa.Builtin); ok && bi.Name() == "len" {
+						pl := bp.linear(part, 6)
+						fs = append(fs, bfact{pl.term, name, -pl.off}) // part <= len(x)
+					}
+				}
+			}
+		}
 	case *ssa.Slice:
 		// x = base[lo:hi]: len = hi - lo
 		var baseLen lin
